@@ -69,7 +69,12 @@ class MarkovChain(ABC):
             # set the interval such that updates are roughly once per second
             steps_taken = self.chain_length - start_length
             current_time = time()
-            update_interval = max(int(steps_taken / (current_time - start_time)), 1)
+            elapsed = current_time - start_time
+            if elapsed > 0:
+                update_interval = max(int(steps_taken / elapsed), 1)
+            else:
+                # the clock has not ticked yet (steps much faster than its resolution)
+                update_interval *= 2
             self.ProgressPrinter.countdown_progress(end_time, steps_taken)
         self.ProgressPrinter.countdown_final(run_time, steps_taken)
 
